@@ -20,6 +20,22 @@ static void fill(rng_t *r, uint8_t *p, size_t n, int lim16)
 	for (size_t i = 0; i < n; i++) { p[i] = (uint8_t)rng_u64(r); if (lim16) p[i] &= 15; }
 }
 
+/* structured contents: kernels with a fast path for zero words / zero bytes (or one that should not have one) see them at
+ * every granularity; dense random data would show an aligned all-zero 64-bit word once in 2^64 */
+static void fill_sparse(rng_t *r, uint8_t *p, size_t n, int lim16)
+{
+	unsigned mode = rng_below(r, 6);
+	fill(r, p, n, lim16);
+	switch (mode) {
+	case 0: memset(p, 0, n); break;                                                        /* all zero */
+	case 1: for (size_t i = 0; i < n; i += 8) if (rng_below(r, 2)) memset(p + i, 0, n - i < 8 ? n - i : 8); break;   /* zero 64-bit words (relative to the start) */
+	case 2: for (size_t i = 0; i < n; i += 4) if (rng_below(r, 2)) memset(p + i, 0, n - i < 4 ? n - i : 4); break;   /* zero 32-bit words */
+	case 3: for (size_t i = 0; i < n; i++) if (rng_below(r, 3)) p[i] = 0; break;                                       /* zero bytes */
+	case 4: { size_t a = n ? rng_below(r, (uint32_t)n) : 0, b = n ? rng_below(r, (uint32_t)n) : 0; if (a > b) { size_t t = a; a = b; b = t; } memset(p + a, 0, b - a); } break;   /* one zero run (padding) */
+	default: for (size_t i = 0; i < n; i++) p[i] = lim16 ? (uint8_t)(i & 1 ? 15 : 1) : (uint8_t)(i & 1 ? 0xFF : 1); break;  /* 1 and the all-ones element */
+	}
+}
+
 enum { K_ADD1, K_FROM, K_TO, K_RS28, K_M8, K_M4, K_M4C, K_N };
 static const char *kname[K_N] = { "of_add_to_symbol", "of_add_from_multiple_symbols", "of_add_to_multiple_symbols",
 	"of_addmul1", "of_galois_field_2_8_addmul1", "of_galois_field_2_4_addmul1", "of_galois_field_2_4_addmul1_compact" };
@@ -33,18 +49,20 @@ static void bad(int k, const char *what, const char *fmt, ...)
 }
 
 /* XOR kernels: one case = (kernel, size, count, destination alignment, per-operand alignments from rng) */
-static void xor_case(int k, uint32_t size, uint32_t cnt, unsigned dal, rng_t *r)
+static void xor_case(int k, uint32_t size, uint32_t cnt, unsigned dal, rng_t *r, int sparse)
 {
-	if (!rep_case("kernel=%s size=%u count=%u dst_align=%u", kname[k], size, cnt, dal)) return;
+	if (!rep_case("kernel=%s size=%u count=%u dst_align=%u contents=%s", kname[k], size, cnt, dal, sparse ? "structured" : "dense")) return;
 	uint32_t nb = cnt ? cnt : 1;
 	uint8_t *one = ar_alloc(size, dal, AR_KERNEL, 0);
 	uint8_t **many = calloc(nb, sizeof *many), **copy = calloc(nb, sizeof *copy);
 	uint8_t *one0 = malloc(size + 1), *exp = malloc(size + 1);
-	fill(r, one, size, 0); memcpy(one0, one, size);
+	if (sparse) fill_sparse(r, one, size, 0); else fill(r, one, size, 0);
+	memcpy(one0, one, size);
 	for (uint32_t j = 0; j < cnt; j++) {
 		many[j] = ar_alloc(size, rng_below(r, 8), AR_KERNEL, (long)j + 1);
 		copy[j] = malloc(size + 1);
-		fill(r, many[j], size, 0); memcpy(copy[j], many[j], size);
+		if (sparse && rng_below(r, 2)) fill_sparse(r, many[j], size, 0); else fill(r, many[j], size, 0);
+		memcpy(copy[j], many[j], size);
 	}
 	/* pointer tables are application memory too */
 	void **tab = ar_alloc(cnt * sizeof(void *), 0, AR_PTRTAB, 0);
@@ -82,13 +100,14 @@ static void xor_case(int k, uint32_t size, uint32_t cnt, unsigned dal, rng_t *r)
 }
 
 /* multiply-accumulate kernels: one case = (kernel, size, dst align, src align), sweeping every constant */
-static void mul_case(int k, uint32_t size, unsigned dal, unsigned sal, rng_t *r)
+static void mul_case(int k, uint32_t size, unsigned dal, unsigned sal, rng_t *r, int sparse)
 {
-	if (!rep_case("kernel=%s size=%u dst_align=%u src_align=%u constants=all", kname[k], size, dal, sal)) return;
+	if (!rep_case("kernel=%s size=%u dst_align=%u src_align=%u constants=all contents=%s", kname[k], size, dal, sal, sparse ? "structured" : "dense")) return;
 	int lim16 = k == K_M4; unsigned ncst = (k == K_M4 || k == K_M4C) ? 16 : 256;
 	uint8_t *dst = ar_alloc(size, dal, AR_KERNEL, 0), *src = ar_alloc(size, sal, AR_KERNEL, 1);
 	uint8_t *d0 = malloc(size + 1), *exp = malloc(size + 1);
-	fill(r, src, size, lim16); fill(r, d0, size, lim16);
+	if (sparse) { fill_sparse(r, src, size, lim16); if (rng_below(r, 2)) fill_sparse(r, d0, size, lim16); else fill(r, d0, size, lim16); }
+	else { fill(r, src, size, lim16); fill(r, d0, size, lim16); }
 	ar_ro(src);
 	for (unsigned c = 0; c < ncst; c++) {
 		ar_rw(dst); memcpy(dst, d0, size);
@@ -131,7 +150,8 @@ int p_c13(void)
 					for (unsigned dal = 0; dal < 8; dal++) {
 						/* beyond 4 unroll periods of every branch, sample the alignments in thorough */
 						if (size > 260 && ((size + cnt + dal) % 4)) continue;
-						xor_case(k, size, cnt, dal, &r);
+						xor_case(k, size, cnt, dal, &r, 0);
+						xor_case(k, size, cnt, dal, &r, 1);
 					}
 		}
 	if (g_run.thorough)
@@ -140,7 +160,7 @@ int p_c13(void)
 			if (!rep_unit_mine(unit)) continue;
 			rng_t r = rng_make(g_run.seed, 1310 + (uint64_t)k, 1);
 			for (unsigned b = 0; b < 2; b++) for (uint32_t cnt = (k == K_ADD1 ? 1 : 0); cnt <= (k == K_ADD1 ? 1u : 20u); cnt += 3)
-				for (unsigned dal = 0; dal < 8; dal += 3) xor_case(k, big[b], cnt, dal, &r);
+				for (unsigned dal = 0; dal < 8; dal += 3) { xor_case(k, big[b], cnt, dal, &r, 0); xor_case(k, big[b], cnt, dal, &r, 1); }
 		}
 	/* multiply-accumulate kernels */
 	for (int k = K_RS28; k <= K_M4C; k++)
@@ -151,7 +171,7 @@ int p_c13(void)
 			for (uint32_t size = s0; size < s0 + 10 && size <= maxsz; size++)
 				for (unsigned dal = 0; dal < 8; dal++) for (unsigned sal = 0; sal < 8; sal++) {
 					if (size > 130 && ((size + dal * 3 + sal) % 8)) continue;
-					mul_case(k, size, dal, sal, &r);
+					mul_case(k, size, dal, sal, &r, (int)((size + dal + sal) & 1));
 				}
 		}
 	if (g_run.thorough)
@@ -159,7 +179,7 @@ int p_c13(void)
 			rep_unit(unit);
 			if (!rep_unit_mine(unit)) continue;
 			rng_t r = rng_make(g_run.seed, 1330 + (uint64_t)k, 1);
-			for (unsigned b = 0; b < 2; b++) for (unsigned dal = 0; dal < 8; dal += 3) for (unsigned sal = 0; sal < 8; sal += 2) mul_case(k, big[b], dal, sal, &r);
+			for (unsigned b = 0; b < 2; b++) for (unsigned dal = 0; dal < 8; dal += 3) for (unsigned sal = 0; sal < 8; sal += 2) mul_case(k, big[b], dal, sal, &r, (int)((dal + sal / 2) & 1));
 		}
 	rep_count("bytes_of_application_memory_under_protection", ar_bytes_protected());
 	return 0;
